@@ -27,6 +27,9 @@ E = "ebpfcat.ethercat."
 
 
 def run(chk, repo):
+    chk.doc("R25.6", "the set of used addresses is per master")
+    per_instance_rule(chk, repo, "R25.6", ["ebpfcat.ethercat.EtherCat"], "bookkeeping of one bus "
+                      "leaks into another")
     chk.doc("R25.1", "atomic check-then-add")
     chk.doc("R25.2", "probe before hand-out")
     chk.doc("R25.3", "configured range")
